@@ -84,6 +84,15 @@ CHECKS = {
                      'every chunk gets its own namespace context; the live ancestor list is remembered by copy; one iteration at a time. '
                      'Equality of verdicts, errors and data for every chunking of every document is not decided; lazy depth >= 2 is not '
                      'claimed by the property itself.', note=NOTE),
+    'C15': dict(ref='DESIGN.md §2 C15', technique='edge-cut reachability within loop iterations of check_model and XsdGlobals.check, handler shape, '
+                                                    'copy-vs-alias of the live path list, predicate shape',
+                text='Partial: decides the structural necessary conditions around the determinism checker - every complex content model is '
+                     'checked after the build and a model error fails a strict build; each leaf particle is compared with every remembered '
+                     'leaf and paths are remembered by copy; the EDC report depends on the consistency test alone (open content included) and '
+                     'precedes the overlap shortcut; an element competing with an XSD 1.1 wildcard gets precedence instead of an error, and the '
+                     'wildcard honours it; same name implies same type. Does NOT decide that distinguishable_paths separates exactly the '
+                     'deterministic pairs - the accept/reject verdict for a given model (e.g. the quoted (a, c+, a*)+) is out of static reach.',
+                note=NOTE),
     'C09': dict(ref='DESIGN.md §2 C09', technique='type-resolved call graph (mypy expression types + class-hierarchy analysis) with '
                                                     'observation-site detection, pickle/copy pairing of lock attributes, reaching definitions',
                 text='Partial: no function reachable from the on-demand builder enumerates, measures or copies a staged global map (so the '
@@ -101,8 +110,6 @@ CHECKS = {
                 note=NOTE + ' Additionally trusts the mypy type map; constructor edges of persistent classes are cut (fresh objects).'),
 }
 NOT_APPLICABLE = {
-    'C15': 'determinism (UPA/EDC) is a property of the automaton built from runtime particle graphs; neither missed ambiguities nor '
-           'false alarms have a structural signature; the invocation clause is covered under C14',
     'C16': 'set semantics of hand-written case splits over namespace constraints can only be decided by evaluating them over the '
            'enumerated domain (execution); shape rules are blind to the defect quoted in the property',
 }
